@@ -28,6 +28,14 @@ var VerifRoot = func() string {
 	return "/verif"
 }()
 
+// RepoRoot is the tree under verification: /repo, or a scratch worktree (VERIF_REPO, see mc/goenv.sh).
+var RepoRoot = func() string {
+	if r := os.Getenv("VERIF_REPO"); r != "" {
+		return r
+	}
+	return "/repo"
+}()
+
 // Failure is one violated case.
 type Failure struct {
 	Sig      string `json:"signature"` // class of the failing case; matched against known-findings.json
